@@ -1,4 +1,6 @@
 import ACModel.Model.Multiclass
+import ACModel.Proofs.Multi
+import ACModel.Props.C07
 /-
   C12 — MulticlassCarver equals one-vs-rest BinaryCarvers
 
@@ -7,9 +9,16 @@ import ACModel.Model.Multiclass
   parameters fitted on the indicator 1[y=ci] outputs for f, keeping `f_ci` iff that BinaryCarver
   keeps f. The raw feature columns are returned unchanged."
 
-  The equality of each column with the independent BinaryCarver's output is a statement about two
-  runs of the real code and is decided by the paired runs of `harness/c12.py`.  What the model
-  adds are the facts the orchestration relies on: the carved classes are all classes but the
+  `Multi.assemble` is the fitted state `MulticlassCarver.fit` builds out of its one-vs-rest
+  `BinaryCarver`s (renamed `values_orders` / `input_dtypes`, `features_casting`), `BRes.disc` is one
+  of those carvers seen as the `BaseDiscretizer` it is.  **`multiclass_column_eq_ovr`**: on every
+  frame, column `f_c` of the multiclass carver's `transform` equals column `f` of the `transform` of
+  the carver of class `c`; `multiclass_keeps_iff`: `f_c` exists iff that carver kept `f`;
+  `multiclass_raw_unchanged`: the raw columns come out as they went in.  That the real
+  `BinaryCarver`s inside `MulticlassCarver.fit` are fitted with the same parameters on the indicator
+  targets (parameter forwarding) is a fact about two runs of the real code, decided by the paired
+  runs of `harness/c12.py`, which also compares the real assembled state with `Multi.assemble`.
+  Further facts the orchestration relies on: the carved classes are all classes but the
   smallest one in string order, the indicator of a class marks exactly its rows, and the created
   column names identify (feature, class) uniquely as long as class labels contain no underscore
   — with a counterexample otherwise (name collisions).
@@ -107,9 +116,165 @@ theorem names_collision : ¬ C12_names_injective_full := by
   have := h "a" "a_1" "1_2" "2" (by decide)
   exact absurd this.1 (by decide)
 
+/-! ## The refinement -/
+
+open Disc FrameLemmas MultiLemmas in
+/-- **MulticlassCarver = one-vs-rest BinaryCarvers, column by column.**  For every carved class
+    `c` and every feature `f` kept by the carver of that class, on every frame both objects accept,
+    the column `f_c` produced by the multiclass carver is the column `f` produced by that
+    `BinaryCarver` — for any number of classes and features, any fitted content, as long as the
+    names `f_c` are unambiguous (`NamesInjective`, see `appendClass_injective_partial` and
+    `names_collision`) and what is read from each carver is coherent (`BResWF`, the C08 facts). -/
+theorem multiclass_column_eq_ovr (p : Shared) (raw classes : List String) (res : String → BRes)
+    (hraw : raw.Nodup) (hcls : classes.Nodup) (hinj : NamesInjective raw classes)
+    (hwf : ∀ c ∈ classes, BResWF raw (res c))
+    (m b : Disc) (c f : String) (hc : c ∈ classes) (hf : f ∈ (res c).features)
+    (hm : (assemble p raw classes res).fit = .ok m) (hb : ((res c).disc p).fit = .ok b)
+    (x0 out outb : Frame) (htm : m.transform x0 = .ok out) (htb : b.transform x0 = .ok outb) :
+    aget? out (appendClass f c) = aget? outb f := by
+  have hal := alike_assemble p raw classes res hcls hinj hwf m b c f hc hf hm hb
+  obtain ⟨_, em⟩ := fit_table _ _ hm
+  obtain ⟨_, eb⟩ := fit_table _ _ hb
+  have hfraw : f ∈ raw := (hwf c hc).featSub f hf
+  have shm : m.Shape := by rw [em]; exact shape_assemble p raw classes res hraw hcls hinj _
+  have shb : b.Shape := by rw [eb]; exact shape_disc p (res c) (hwf c hc).featNodup _
+  -- the one-vs-rest carver casts every feature to itself
+  have hcb : b.castFeatures x0 = .ok x0 := by
+    unfold castFeatures
+    have : b.casting.all (fun c => c.2 == [c.1]) = true := by
+      rw [eb]; simp [BRes.disc, List.all_map]
+    simp [this]
+  obtain ⟨col, hcol⟩ := transform_cols_present b x0 x0 outb hcb htb f (by rw [eb]; exact hf)
+  -- the multiclass carver duplicates the raw column `f` under the name `f_c`
+  have hcast : m.casting = castedFeatures raw classes res := by rw [em]; rfl
+  have hnotall : m.casting.all (fun c => c.2 == [c.1]) = false := by
+    rw [hcast, List.all_eq_false]
+    refine ⟨(f, (classes.filter (fun c => decide (f ∈ (res c).features))).map (appendClass f)),
+      List.mem_map.2 ⟨f, hfraw, rfl⟩, ?_⟩
+    intro h
+    have h' : (classes.filter (fun c => decide (f ∈ (res c).features))).map (appendClass f) = [f] := by simpa using h
+    have hin : appendClass f c ∈ (classes.filter (fun c => decide (f ∈ (res c).features))).map (appendClass f) :=
+      List.mem_map.2 ⟨c, List.mem_filter.2 ⟨hc, by simpa using hf⟩, rfl⟩
+    rw [h'] at hin
+    exact appendClass_ne f c (List.mem_singleton.1 hin)
+  cases hcm : m.castFeatures x0 with
+  | error e =>
+    unfold transform at htm; rw [hcm] at htm; cases htm
+  | ok x =>
+    have hfold : m.casting.foldlM (castStep x0) x0 = .ok x := by rw [← castFeatures_eq m x0 hnotall]; exact hcm
+    have hx : aget? x (appendClass f c) = some col := by
+      apply cast_get x0 (appendClass f c) f col hcol m.casting x0 x hfold
+      · intro e he hin
+        rw [hcast] at he
+        obtain ⟨f', hf', rfl⟩ := List.mem_map.1 he
+        obtain ⟨c', hc', e'⟩ := List.mem_map.1 hin
+        exact (hinj f' hf' f hfraw c' (List.mem_filter.1 hc').1 c hc e').1
+      · left
+        refine ⟨(f, (classes.filter (fun c => decide (f ∈ (res c).features))).map (appendClass f)), ?_, ?_⟩
+        · rw [hcast]; exact List.mem_map.2 ⟨f, hfraw, rfl⟩
+        · exact List.mem_map.2 ⟨c, List.mem_filter.2 ⟨hc, by simpa using hf⟩, rfl⟩
+    obtain ⟨_, h1⟩ := transform_spec m shm x0 x out hcm htm
+    obtain ⟨_, h2⟩ := transform_spec b shb x0 x0 outb hcb htb
+    obtain ⟨c1, e1, o1⟩ := (h1 (appendClass f c)).1 col hx
+    obtain ⟨c2, e2, o2⟩ := (h2 f).1 col hcol
+    have := colTransform_alike hal col c1 e1
+    rw [e2] at this
+    injection this with this
+    rw [o1, o2, this]
+
+open Disc MultiLemmas in
+/-- **`f_c` is kept iff the carver of class `c` keeps `f`.** -/
+theorem multiclass_keeps_iff (p : Shared) (raw classes : List String) (res : String → BRes)
+    (hinj : NamesInjective raw classes)
+    (m : Disc) (hm : (assemble p raw classes res).fit = .ok m)
+    (c f : String) (hc : c ∈ classes) (hf : f ∈ raw) :
+    appendClass f c ∈ m.features ↔ f ∈ (res c).features := by
+  obtain ⟨_, em⟩ := fit_table _ _ hm
+  rw [em]
+  show appendClass f c ∈ (assemble p raw classes res).features ↔ _
+  rw [mem_assemble_features]
+  constructor
+  · rintro ⟨f', hf', c', hc', hk, e⟩
+    obtain ⟨rfl, rfl⟩ := hinj f hf f' hf' c hc c' hc' e
+    exact hk
+  · intro hk
+    exact ⟨f, hf, c, hc, hk, rfl⟩
+
+open Disc FrameLemmas MultiLemmas in
+/-- **The raw feature columns are returned unchanged** (no created name coincides with a raw
+    feature name). -/
+theorem multiclass_raw_unchanged (p : Shared) (raw classes : List String) (res : String → BRes)
+    (hraw : raw.Nodup) (hcls : classes.Nodup) (hinj : NamesInjective raw classes)
+    (m : Disc) (hm : (assemble p raw classes res).fit = .ok m)
+    (x0 out : Frame) (htm : m.transform x0 = .ok out)
+    (f : String) (hnew : ∀ f' ∈ raw, ∀ c' ∈ classes, appendClass f' c' ≠ f) :
+    aget? out f = aget? x0 f := by
+  obtain ⟨_, em⟩ := fit_table _ _ hm
+  have shm : m.Shape := by rw [em]; exact shape_assemble p raw classes res hraw hcls hinj _
+  have hcast : m.casting = castedFeatures raw classes res := by rw [em]; rfl
+  have hnotfeat : f ∉ m.features := by
+    rw [em]
+    show f ∉ (assemble p raw classes res).features
+    rw [mem_assemble_features]
+    rintro ⟨f', hf', c', hc', _, e⟩
+    exact hnew f' hf' c' hc' e.symm
+  have hq : f ∉ m.quant := by
+    rw [em]; intro h
+    exact hnotfeat (by rw [em]; exact (List.mem_filter.1 h).1)
+  have hl : f ∉ m.qual := by
+    rw [em]; intro h
+    exact hnotfeat (by rw [em]; exact (List.mem_filter.1 h).1)
+  have hfd : ∀ fd ∈ m.featDropna, fd.1 ≠ f := by
+    rw [em]
+    intro fd hfd e
+    have : fd ∈ (assemble p raw classes res).featDropna := hfd
+    simp only [assemble, List.mem_map] at this
+    obtain ⟨n, hn, rfl⟩ := this
+    exact hnotfeat (by rw [em]; exact e ▸ hn)
+  cases hcm : m.castFeatures x0 with
+  | error e => unfold transform at htm; rw [hcm] at htm; cases htm
+  | ok x =>
+    rw [C07.transform_nonfeature_unchanged m shm x0 x out hcm htm f hq hl hfd]
+    unfold castFeatures at hcm
+    split at hcm
+    · injection hcm with hcm; subst hcm; rfl
+    · apply cast_other x0 f m.casting x0 x hcm
+      intro e he hin
+      rw [hcast] at he
+      obtain ⟨f', hf', rfl⟩ := List.mem_map.1 he
+      obtain ⟨c', hc', e'⟩ := List.mem_map.1 hin
+      exact hnew f' hf' c' (List.mem_filter.1 hc').1 e'
+
 /-! ## Non-vacuity -/
 example : carvedClasses ["2", "10", "3", "10", "2"] = ["2", "3"] := by decide
 example : indicator ["a", "b", "a"] "a" = [1, 0, 1] := by decide
 example : appendClass "age" "c1" = "age_c1" := by decide
+
+/-! a concrete instance of the refinement theorem: classes "a" < "b" < "c" (carved: "b", "c"), features "q" (quantitative,
+    kept for both classes with different groupings) and "k" (qualitative, kept for class "b" only) -/
+def exShared : Shared := ⟨true, some "__NAN__", some "__OTHER__", true⟩
+def exRes : String → BRes
+  | "b" => ⟨["q", "k"], [("q", GL.ofList [.num 1, .inf]), ("k", GL.ofList [.str "u", .str "v"])], [("q", true), ("k", false)]⟩
+  | "c" => ⟨["q"], [("q", GL.ofList [.num 5, .inf])], [("q", true)]⟩
+  | _ => default
+def exX : Frame := [("q", [some (.num 0), some (.num 3), some (.num 9)]), ("k", [some (.str "v"), some (.str "u"), some (.str "v")])]
+
+example : carvedClasses ["c", "a", "b", "a"] = ["b", "c"] := by decide
+example : ((assemble exShared ["q", "k"] ["b", "c"] exRes).fit.bind fun m => m.transform exX) =
+    .ok [("q", [some (.num 0), some (.num 3), some (.num 9)]), ("k", [some (.str "v"), some (.str "u"), some (.str "v")]),
+         ("q_b", [some (.num 0), some (.num 1), some (.num 1)]), ("q_c", [some (.num 0), some (.num 0), some (.num 1)]),
+         ("k_b", [some (.num 1), some (.num 0), some (.num 1)])] := by decide +kernel
+example : (((exRes "c").disc exShared).fit.bind fun b => b.transform exX) =
+    .ok [("q", [some (.num 0), some (.num 0), some (.num 1)]), ("k", [some (.str "v"), some (.str "u"), some (.str "v")])] := by
+  decide +kernel
+example : MultiLemmas.NamesInjective ["q", "k"] ["b", "c"] := by
+  intro f hf f' hf' c hc c' hc' e
+  simp only [List.mem_cons, List.not_mem_nil, or_false] at hf hf' hc hc'
+  rcases hf with rfl | rfl <;> rcases hf' with rfl | rfl <;> rcases hc with rfl | rfl <;> rcases hc' with rfl | rfl <;>
+    first | exact ⟨rfl, rfl⟩ | (exact absurd e (by decide))
+example : ∀ c ∈ ["b", "c"], MultiLemmas.BResWF ["q", "k"] (exRes c) := by
+  intro c hc
+  simp only [List.mem_cons, List.not_mem_nil, or_false] at hc
+  rcases hc with rfl | rfl <;> exact ⟨by decide, by decide, by decide, by decide, by decide, by decide⟩
 
 end C12
